@@ -529,5 +529,15 @@ def rule_response_future_wired(ctx):
     c01d(ctx)
 
 
+
+def rule_credit_handed_on_at_once(ctx):
+    """(shared C06.a)  A CANCEL that follows its request in the same read finds a producer that has already been given
+    the request's credit - or none at all: the credit of a request frame is handed to Subscription.request while the
+    frame is being handled, not in a later loop turn, where it would start a producer that was already cancelled and
+    that nothing can stop any more (rules/c06.py)."""
+    from .c06 import rule_a as c06a
+    c06a(ctx)
+
+
 RULES = [('C09.a', rule_a), ('C09.b', rule_b), ('C09.c', rule_c), ('C09.d', rule_d), ('C09.e', rule_e),
-         ('C09.f', c07b), ('C09.g', rule_g), ('C05.a', rule_order), ('C20.d', rule_rx), ('C09.i', rule_router_future), ('C09.j', rule_generator_adapters), ('C05.h', rule_builders_fresh), ('C01.h', rule_adapter_cancellation), ('C01.d', rule_response_future_wired)]
+         ('C09.f', c07b), ('C09.g', rule_g), ('C05.a', rule_order), ('C20.d', rule_rx), ('C09.i', rule_router_future), ('C09.j', rule_generator_adapters), ('C05.h', rule_builders_fresh), ('C01.h', rule_adapter_cancellation), ('C01.d', rule_response_future_wired), ('C06.a', rule_credit_handed_on_at_once)]
